@@ -39,10 +39,16 @@ DELIBERATE = (
     "Line search failed to converge",
 )
 
+class SinkHandler(logging.Handler):
+    """Formats every record that passes the level (so formatting code runs) and drops it."""
+
+    def emit(self, record):
+        record.getMessage()
+
+
 LOGGER = logging.getLogger("gradflow")  # the name pygradflow.log uses
 LOGGER.setLevel(logging.WARNING)
-if not LOGGER.handlers:
-    LOGGER.addHandler(logging.NullHandler())
+LOGGER.handlers[:] = [SinkHandler()]
 LOGGER.propagate = False
 
 
